@@ -399,6 +399,7 @@ def gen_spec(r, scenario: str, big: bool) -> dict:
         target = r.choice([256, 256, 256, 255, 250, 200])
     else:
         target = r.choice([1, 2, 3, 5, 8, 13, 30, 60])
+    abi_out = []
     vars_, shared, used = [], [], 0
     nshared = r.choice([0, 0, 1, 2, 3]) if nsub else 0
     for _ in range(nshared):
@@ -426,8 +427,10 @@ def gen_spec(r, scenario: str, big: bool) -> dict:
         version, fp = r.choice([8, 9, 10]), r.choice([True, None])
         nsub = max(nsub, 1) if version >= 4 else 1
         sub = r.randrange(1, nsub + 1)
-        for _ in range(r.choice([127, 128, 129, 130, 140, 200])):
+        for _ in range(r.choice([126, 127, 128, 129, 130, 140, 200])):
             vars_.append({"kind": "abi", "home": sub, "slot": None, "slot2": None, "m1": 0, "m2": None})
+        if r.random() < 0.5:
+            abi_out = [sub]      # the crowded routine returns through an ABI output cell (frame entry 0 counts against the 128)
     # a routine with exactly one variable would have its store/load pair cancelled by the optimiser: keep counts exact
     for rt in range(1, nsub + 1):
         mine = [v for v in vars_ if v["home"] == rt]
@@ -462,7 +465,8 @@ def gen_spec(r, scenario: str, big: bool) -> dict:
             v["echo"] = r.random() < 0.5
     expect = {"fits": "approve", "fpcap": "approve", "toomany": "toomany", "dup": "dup"}[scenario]
     return {"version": version, "scratch_opt": scratch_opt, "fp": fp, "nsub": nsub, "chain": chain, "vars": vars_,
-            "shared": shared, "expect": expect, "scenario": scenario, "shared_options": r.random() < 0.5}
+            "shared": shared, "expect": expect, "scenario": scenario, "shared_options": r.random() < 0.5,
+            "abi_out": [j for j in abi_out if j <= nsub] if version >= 6 else []}
 
 
 _SHARED_OPTIONS: dict = {}
@@ -575,14 +579,20 @@ def build_and_compile(spec: dict):
             seq += store1(v, objs[i])
         for i, v in mine:
             seq += store2(v, objs[i])
+        def call(j):
+            if j in abi_out:
+                return subs[j]().use(lambda v: pt.Assert(v.get() == pt.Int(code(j))))
+            return pt.Assert(subs[j]() == pt.Int(code(j)))
         if spec["chain"]:
             if rt < nsub:
-                seq.append(pt.Assert(subs[rt + 1]() == pt.Int(code(rt + 1))))
+                seq.append(call(rt + 1))
         elif rt == 0:
             for j in range(1, nsub + 1):
-                seq.append(pt.Assert(subs[j]() == pt.Int(code(j))))
+                seq.append(call(j))
         for i, v in mine:
             seq += checks(v, objs[i])
+        if rt != 0 and rt in abi_out:
+            return pt.Seq(*seq, out_cell[rt].set(pt.Int(code(rt))))
         if rt == 0:
             for so, s in zip(shared_objs, S):
                 if not s.get("echo"):
@@ -594,7 +604,18 @@ def build_and_compile(spec: dict):
             seq.append(pt.Int(code(rt)))
         return pt.Seq(*seq)
 
+    abi_out = spec.get("abi_out") or []
+    out_cell = {}
+
     def make_sub(j):
+        if j in abi_out:
+            def impl_abi(*, output):
+                out_cell[j] = output
+                return body(j)
+            impl_abi.__annotations__ = {"output": pt.abi.Uint64, "return": pt.Expr}
+            impl_abi.__name__ = f"sub{j}"
+            return pt.ABIReturnSubroutine(impl_abi)
+
         def impl():
             return body(j)
         impl.__name__ = f"sub{j}"
@@ -748,8 +769,19 @@ def expected_scratch_count(spec: dict, d: Driver):
             n += 1      # the target never appears in a load/store line (only as `int k`); its cell is checked by execution
         else:
             n += SLOT_COST[x["kind"]]
-    for m in per_sub_abi.values():
-        n += d.ask(f"c10-alloc {m} 0").split(",").count("s")
+    ao = spec.get("abi_out") or []
+    for j in ao:
+        # the result of an ABI routine is received in a fresh ABI value of the caller (`.use`); the output cell itself is frame
+        # entry 0 under frame pointers and a scratch slot otherwise
+        caller = (j - 1) if spec["chain"] else 0
+        if caller != 0 and fp_on:
+            per_sub_abi[caller] = per_sub_abi.get(caller, 0) + 1
+        elif not opt_on:
+            n += 1      # (with the optimiser on, the receiving cell's `store k; load k` is the one pair it cancels)
+        if not fp_on:
+            n += 1
+    for j, m in per_sub_abi.items():
+        n += d.ask(f"c10-alloc {m} {1 if j in ao else 0}").split(",").count("s")
     return n
 
 
